@@ -64,6 +64,9 @@ class Sched:
         self.change_points = set(params.get("change_points", []))
         self.force_windows = dict(params.get("force_windows", {}))  # window -> remaining forced switches
         self.on_point = None  # callable(sched, me, label) for run-specific probes
+        # engine S turns lock operations off as yield points: whether a compile lock is taken at all
+        # depends on what the worker's kernel cache already holds
+        self.lock_points = params.get("lock_points", True)
 
     # ------------------------------------------------------------------ helpers
     @staticmethod
@@ -95,6 +98,8 @@ class Sched:
     def point(self, label, hot):
         me = self.tid()
         if me is None or me != self.cur or self.abandoned:
+            return
+        if not self.lock_points and label.startswith("lock."):
             return
         self.steps += 1
         self.progress += 1
